@@ -117,11 +117,25 @@ def build_model(ctx):
 
 
 def theorem_names(path):
+    """fully qualified names of the theorems of a file (namespace/section aware), and the source
+    without comments"""
     src = open(path).read()
-    # strip comments
     src_nc = re.sub(r'/-.*?-/', '', src, flags=re.S)
     src_nc = re.sub(r'--.*', '', src_nc)
-    return re.findall(r'^\s*theorem\s+([A-Za-z_][A-Za-z0-9_\.\']*)', src_nc, re.M), src_nc
+    stack, names = [], []
+    for line in src_nc.split('\n'):
+        m = re.match(r'^\s*namespace\s+(\S+)', line)
+        if m:
+            stack.append(m.group(1))
+            continue
+        m = re.match(r'^\s*end\s+(\S+)\s*$', line)
+        if m and stack and stack[-1] == m.group(1):
+            stack.pop()
+            continue
+        m = re.match(r'^\s*(?:@\[[^\]]*\]\s*)?(?:private\s+|protected\s+)?theorem\s+([A-Za-z_][A-Za-z0-9_\.\'!?]*)', line)
+        if m and 'private' not in line.split('theorem')[0]:
+            names.append('.'.join(stack + [m.group(1)]))
+    return names, src_nc
 
 
 def check_theorems(ctx, modules):
@@ -151,9 +165,7 @@ def check_theorems(ctx, modules):
     for mod in modules:
         path = LEAN + '/' + mod.replace('.', '/') + '.lean'
         ths, nc = theorem_names(path)
-        ns = re.findall(r'^namespace\s+(\S+)', nc, re.M)
-        prefix = (ns[0] + '.') if ns else ''
-        names += [(mod, prefix + t) for t in ths]
+        names += [(mod, t) for t in ths]
     audit = os.path.join(ctx.tmp, 'Audit.lean')
     with open(audit, 'w') as f:
         for mod in modules:
